@@ -667,6 +667,22 @@ func (x *exec) runInstrs(st *State, b *ssa.BasicBlock, idx int) {
 			fr := st.top()
 			fr.defers = append(fr.defers, cs)
 		case *ssa.Go:
+			if len(st.frames) == 1 {
+				// the goroutine body is not executed, but what it is STARTED WITH is observable in
+				// postconditions: goarg(k, i) = i-th argument of the k-th go statement of this path
+				var as []specVal
+				sig := ins.Call.Signature()
+				for i, a := range ins.Call.Args {
+					var t types.Type
+					if i < sig.Params().Len() {
+						t = sig.Params().At(i).Type()
+					} else {
+						t = a.Type()
+					}
+					as = append(as, specVal{V: x.get(st, a), T: t})
+				}
+				st.goArgs = append(st.goArgs, as)
+			}
 			x.ctx.note("go statement in " + CanonKey(st.top().fn) + " at " + x.posStr(ins.Pos()) + ": goroutine body not executed (T-go)")
 		case *ssa.Select:
 			x.doSelect(st, ins)
